@@ -809,6 +809,7 @@ func c12(args []string) int {
 		}
 	}
 	c12ConcurrentProbe(run, rm)
+	c12Resources(run)
 	sh.Close()
 	return run.Finish()
 }
@@ -1208,4 +1209,181 @@ func scriptedRouteHistory(n int, r *Rng, name, unknown string, cnames []string) 
 		}
 	}
 	return
+}
+
+// ---------------------------------------------------------------------------------------- resource manager identity across updates
+
+type ropT struct {
+	Kind string `json:"kind"` // update | update-hosts-too | hosts | remove | acquire | release
+	Max  int    `json:"max,omitempty"`
+	K    int    `json:"k,omitempty"`
+}
+
+func (o ropT) coq() string {
+	switch o.Kind {
+	case "update", "update-hosts-too":
+		return fmt.Sprintf("RUpdate %s", CoqNat(o.Max))
+	case "hosts":
+		return "RHosts"
+	case "remove":
+		return "RRemove"
+	case "acquire":
+		return "RAcquire"
+	}
+	return fmt.Sprintf("RRelease %s", CoqNat(o.K))
+}
+
+func boolInt(b bool) int64 {
+	if b {
+		return 1
+	}
+	return 0
+}
+
+// c12Resources: requests in flight hold the snapshot they started with and count themselves in its resource manager
+// (Increase); the cluster is updated (identical / changed thresholds, with and without hosts, hosts only, removed and
+// created again); the requests end and give their count back through the snapshot THEY hold (Decrease).  After every
+// operation the live cluster's threshold / count / CanCreate and the dumped threshold go to Coq (Model/UpdateRes.v);
+// at the end every holder releases and the finder requires: every live counter is 0 again, and the live cluster
+// answers CanCreate like a cluster freshly built from the dumped configuration.
+func c12Resources(run *Run) {
+	r := run.R
+	ad := cluster.GetClusterMngAdapterInstance()
+	header := "From MV Require Import Model.UpdateRes Gen.ClusterSrc.\nFrom Coq Require Import List ZArith.\nImport ListNotations.\nOpen Scope Z_scope.\n"
+	sh := run.NewShard(header, "res_case", "res_mismatches resource_manager_adopted")
+	nh := run.N(60, 600)
+	for hi := 0; hi < nh; hi++ {
+		name := fmt.Sprintf("s%dres%d", run.Seed, hi)
+		var ops []ropT
+		switch hi {
+		case 0: // a retry in flight while the cluster is updated with the identical configuration
+			ops = []ropT{{Kind: "update", Max: 1}, {Kind: "acquire"}, {Kind: "update", Max: 1}, {Kind: "release", K: 0}}
+		case 1: // an open stream while cluster and hosts are replaced
+			ops = []ropT{{Kind: "update", Max: 2}, {Kind: "acquire"}, {Kind: "update-hosts-too", Max: 2}, {Kind: "acquire"}, {Kind: "update", Max: 1}, {Kind: "release", K: 0}, {Kind: "release", K: 0}}
+		case 2: // changed thresholds, several overlaps
+			ops = []ropT{{Kind: "update", Max: 3}, {Kind: "acquire"}, {Kind: "acquire"}, {Kind: "update", Max: 1}, {Kind: "release", K: 1}, {Kind: "update", Max: 2}, {Kind: "acquire"}, {Kind: "hosts"}, {Kind: "release", K: 0}}
+		case 3: // removed and created again while a request is in flight
+			ops = []ropT{{Kind: "update", Max: 1}, {Kind: "acquire"}, {Kind: "remove"}, {Kind: "update", Max: 1}, {Kind: "acquire"}, {Kind: "release", K: 0}, {Kind: "update", Max: 1}}
+		default:
+			held := 0
+			for k, n := 0, 5+r.Intn(10); k < n; k++ {
+				switch x := r.Intn(100); {
+				case k == 0 || x < 28:
+					ops = append(ops, ropT{Kind: r.PickS([]string{"update", "update", "update-hosts-too"}), Max: r.Pick([]int{0, 1, 1, 2, 3})})
+				case x < 36:
+					ops = append(ops, ropT{Kind: "hosts"})
+				case x < 42:
+					ops = append(ops, ropT{Kind: "remove"})
+				case x < 75:
+					ops = append(ops, ropT{Kind: "acquire"})
+					held++ // an upper bound (acquire on a missing cluster holds nothing)
+				default:
+					ops = append(ops, ropT{Kind: "release", K: r.Intn(held + 1)})
+				}
+			}
+		}
+		type holder struct{ snap types.ClusterSnapshot }
+		var holders []holder
+		var fps []string
+		rep := map[string]interface{}{"cluster": name, "history": ops}
+		mkCluster := func(max int) v2.Cluster {
+			return v2.Cluster{Name: name, ClusterType: v2.SIMPLE_CLUSTER, LbType: v2.LB_RANDOM,
+				CirBreThresholds: v2.CircuitBreakers{Thresholds: []v2.Thresholds{{MaxConnections: uint32(max), MaxPendingRequests: uint32(max), MaxRequests: uint32(max), MaxRetries: uint32(max)}}}}
+		}
+		resources := func(m types.ResourceManager) []types.Resource {
+			return []types.Resource{m.Retries(), m.Connections(), m.Requests(), m.PendingRequests()}
+		}
+		observe := func() string {
+			fp := []int64{0, 0, 0, 0, 0, 0}
+			if snap := ad.GetClusterSnapshot(context.Background(), name); snap != nil {
+				rs := resources(snap.ClusterInfo().ResourceManager())
+				fp[0], fp[1], fp[2], fp[3] = 1, int64(rs[0].Max()), rs[0].Cur(), boolInt(rs[0].CanCreate())
+				for _, x := range rs[1:] {
+					if int64(x.Max()) != fp[1] || x.Cur() != fp[2] || boolInt(x.CanCreate()) != fp[3] {
+						run.Fail("c12:resources-of-one-manager-differ", "the four resources were used alike and report different threshold / count / CanCreate", rep)
+					}
+				}
+			}
+			if cc, ok, err := dumpedCluster(name); ok && err == nil {
+				fp[4] = 1
+				if len(cc.CirBreThresholds.Thresholds) > 0 {
+					fp[5] = int64(cc.CirBreThresholds.Thresholds[0].MaxRetries)
+				}
+			}
+			var it []string
+			for _, x := range fp {
+				it = append(it, CoqZ(x))
+			}
+			return CoqList(it)
+		}
+		apply := func(o ropT) {
+			switch o.Kind {
+			case "update":
+				ad.TriggerClusterAddOrUpdate(mkCluster(o.Max))
+			case "update-hosts-too":
+				ad.TriggerClusterAndHostsAddOrUpdate(mkCluster(o.Max), hostsV2([]hostT{{Addr: addrPool[hi%len(addrPool)], Weight: 1}}))
+			case "hosts":
+				ad.TriggerClusterHostUpdate(name, hostsV2([]hostT{{Addr: addrPool[(hi+1)%len(addrPool)], Weight: 2}}))
+			case "remove":
+				ad.TriggerClusterDel(name)
+			case "acquire":
+				if snap := ad.GetClusterSnapshot(context.Background(), name); snap != nil {
+					for _, x := range resources(snap.ClusterInfo().ResourceManager()) {
+						x.Increase()
+					}
+					holders = append(holders, holder{snap})
+				}
+			case "release":
+				if o.K < len(holders) {
+					for _, x := range resources(holders[o.K].snap.ClusterInfo().ResourceManager()) {
+						x.Decrease()
+					}
+					holders = append(holders[:o.K], holders[o.K+1:]...)
+				}
+			}
+		}
+		for _, o := range ops {
+			guarded("resource history", o, func() { apply(o) })
+			fps = append(fps, observe())
+		}
+		// every request in flight ends
+		for len(holders) > 0 {
+			o := ropT{Kind: "release", K: 0}
+			ops = append(ops, o)
+			apply(o)
+			fps = append(fps, observe())
+		}
+		rep["history"] = ops
+		reportPanics(run, "c12", rep)
+		if snap := ad.GetClusterSnapshot(context.Background(), name); snap != nil {
+			live := resources(snap.ClusterInfo().ResourceManager())
+			for _, x := range live {
+				if x.Cur() != 0 {
+					run.Fail("c12:resource-count-stuck-after-update", fmt.Sprintf("every request that counted itself in cluster %s has ended, the live cluster still counts %d (threshold %d)", name, x.Cur(), x.Max()), rep)
+					break
+				}
+			}
+			if cc, ok, err := dumpedCluster(name); ok && err == nil {
+				fresh := resources(cluster.NewCluster(cc).Snapshot().ClusterInfo().ResourceManager())
+				for i := range live {
+					if live[i].CanCreate() != fresh[i].CanCreate() {
+						sig := "c12:live-differs-from-fresh-start:can-create"
+						if !live[i].CanCreate() {
+							sig = "c12:live-refuses-what-fresh-start-serves"
+						}
+						run.Fail(sig, fmt.Sprintf("with no request in flight the live cluster %s answers CanCreate=%v (count %d, threshold %d), a cluster built from the dumped configuration answers %v", name, live[i].CanCreate(), live[i].Cur(), live[i].Max(), fresh[i].CanCreate()), rep)
+						break
+					}
+				}
+			}
+		}
+		var cops []string
+		for _, o := range ops {
+			cops = append(cops, o.coq())
+		}
+		sh.Add(fmt.Sprintf("(%s, %s)", CoqList(cops), CoqList(fps)), rep)
+		run.Count(fmt.Sprintf("%d|res|%d", run.Seed, hi), true, "resource-history")
+		ad.TriggerClusterDel(name)
+	}
+	sh.Close()
 }
